@@ -22,7 +22,7 @@ use octo_squirrel::manager::shadowsocks::ServerUser;
 use octo_squirrel::manager::shadowsocks::ServerUserManager;
 use octo_squirrel::protocol::address::Address;
 use octo_squirrel::protocol::shadowsocks::Mode;
-use octo_squirrel::protocol::shadowsocks::aead_2022::password_to_keys;
+use octo_squirrel::protocol::shadowsocks::aead_2022::config_password_to_keys as password_to_keys;
 use rand::random;
 use tcp::PayloadCodec;
 use tcp::ServerContext;
